@@ -5,8 +5,8 @@
 //! set-up.  Running the operation fills in the dynamic part: logical begin/end times and the
 //! result.  All oracles are assertions over this table, labelled with the property they belong to.
 
-pub const MAXREC: usize = 28;
-pub const MAXID: usize = 8; // payload ids 1..=7, 0 = none
+pub const MAXREC: usize = 44;
+pub const MAXID: usize = 16; // payload ids 1..=15, 0 = none
 pub const MAXSTREAM: usize = 4;
 
 pub const OP_NONE: u8 = 0;
